@@ -621,6 +621,34 @@ def check_polyroots_order(run, ix):
             run.fail(F('R-P3', POLY, 'polyroots', x, 'the tolerance ranks are not those of |Im| and then Re (%s)' % what))
 
 
+def check_error_floor(run, ix):
+    """R-P4.  The returned roots are rounded to the caller's precision, so the error estimate cannot be below
+    |r| * 2^-prec for ANY root r: the floor must scale with the largest modulus among ALL roots (the list is sorted
+    by |Im| and Re, not by modulus, so its ends say nothing)."""
+    f = ix.func(POLY, 'polyroots')
+    floors = [x for x in _walk_own(f.node) if isinstance(x, ast.Call) and norm(x.func) == 'ctx.ldexp' and
+              any('orig' in norm(a) for a in x.args)]
+    if not floors:
+        raise AnalysisError('polyroots: precision floor of the error estimate not found')
+    for fl in floors:
+        a0 = fl.args[0]
+        src = a0
+        if isinstance(a0, ast.Name):
+            defs = [x for x in _walk_own(f.node) if isinstance(x, ast.Assign) and norm(x.targets[0]) == a0.id]
+            src = defs[-1].value if defs else a0
+        over_all = any(isinstance(c, (ast.ListComp, ast.GeneratorExp)) and norm(c.generators[0].iter) == 'roots' and
+                       not c.generators[0].ifs for c in ast.walk(src)) or 'map(abs, roots)' in norm(src)
+        if isinstance(src, ast.Constant):
+            run.fail(F('R-P4', POLY, 'polyroots', fl, 'the floor of the error estimate is the absolute %s * 2^-prec: the '
+                       'roots are rounded to prec bits, which costs up to |r| * 2^-prec' % norm(src)))
+        elif over_all and 'max' in norm(src):
+            run.ok('R-P4', 'error floor scales with the largest modulus over all roots')
+        else:
+            run.fail(F('R-P4', POLY, 'polyroots', fl, 'the floor of the error estimate scales with `%s`, which is not the '
+                       'largest modulus over ALL roots: a larger root elsewhere in the list is rounded with an error '
+                       'above the reported estimate' % norm(src, 80)))
+
+
 def check_multiplicity(run, ix):
     """R-M1.  multiplicity() counts vanishing derivatives up to maxsteps.  If the loop runs out without
     finding a non-vanishing derivative, the last loop index (maxsteps - 1) is not the multiplicity: at least
@@ -675,6 +703,8 @@ def run(run, ix, tier):
     check_keyword_lookups(run, ix)
     check_mnewton_guard(run, ix)
     check_polyroots_order(run, ix)
+    run.rule('R-P4', floor=1, desc='polyroots error floor scales with the largest root')
+    check_error_floor(run, ix)
     check_multiplicity(run, ix)
     # built-in positive example: a negative scaling factor must break the invariant
     src = ("def getm(fz, fb):\n    return (1 - fz/fb) or 0.5\n")
